@@ -726,6 +726,38 @@ func (m *Machine) strIndex(s *SymStr, idx value, in ssa.Instruction) value {
 		panic(unsupported("index into variable-length symbolic string"))
 	}
 	i := m.boundsCheck(idx, int(nn), in.Pos())
+	if ci, ok := i.(int64); ok {
+		// positional access on a fixed-layout template
+		pos := int64(0)
+		for _, p := range s.parts {
+			var w int64
+			switch p.kind {
+			case 0:
+				w = int64(len(p.lit))
+			case 1:
+				w = int64(p.w)
+			case 2:
+				w = int64(len(p.alts[0].s))
+			}
+			if ci < pos+w {
+				off := ci - pos
+				switch p.kind {
+				case 0:
+					return int64(p.lit[off])
+				case 1:
+					pow := int64(1)
+					for k := int64(0); k < w-1-off; k++ {
+						pow *= 10
+					}
+					dg := m.tb.Rem(m.tb.Quo(p.num, m.tb.Int(pow)), m.tb.Int(10))
+					return m.simp(m.tb.Add(dg, m.tb.Int(48)))
+				case 2:
+					return m.mergeAlts(len(p.alts), func(k int) (*Term, value) { return p.alts[k].g, int64(p.alts[k].s[off]) })
+				}
+			}
+			pos += w
+		}
+	}
 	return m.liftStr([]value{s, i}, func(v []value) value { return int64(v[0].(string)[v[1].(int64)]) })
 }
 
